@@ -185,7 +185,6 @@ CLAIMED = {
               "end with a diagnostic exception class. Fault classes not carried by a theorem are fault-enumeration only."),
         design_ref='§8 C17'),
     'C18': dict(
-        category='partial',
         technique='Lean 4 proof (permutation invariance of the sorting writers on the model) + model↔code correspondence of VolumeT4.__str__ + replay under different hash seeds and conversion histories',
         text=("Partial. The Lean model of the converter is a pure function of the deck, so model-level determinism "
               "holds by construction; what is proved is the part of the property that is logic: wherever a Python set "
